@@ -16,29 +16,57 @@ from .. import ledger
 LEVEL = "other"
 
 
-def clamp_verified(F, fn_base, var, lo):
-    """Is `var` assigned from an expression containing std::max(lo, ..)?"""
-    for fn in F.find(fn_base):
-        for b, kind, tree, e in fn.roots():
-            if tree is None:
-                continue
-            for n in walk(tree):
-                tgt = rhs = None
-                if n.get("k") == "bin" and n.get("op") == "=":
-                    tgt, rhs = n.get("l"), n.get("r")
-                if kind == "decl" and n is tree:
-                    tgt, rhs = {"k": "var", "n": e.get("var", {}).get("n")}, tree
-                if not isinstance(tgt, dict) or tgt.get("n") != var:
-                    continue
-                for c in walk(rhs):
-                    if c.get("k") == "call" and strip_targs(c.get("fn") or "") == "std::max":
-                        for a in c.get("args", []):
-                            aa = a
-                            while isinstance(aa, dict) and aa.get("k") in ("icast", "cast") and "v" not in aa:
-                                aa = aa.get("e")
-                            if isinstance(aa, dict) and aa.get("v") == lo:
-                                return True
+def _has_max_lo(F, rhs, lo, depth=0):
+    """rhs contains std::max(lo, ..), directly or as the value every return of a called helper yields."""
+    for c in walk(rhs):
+        if c.get("k") != "call":
+            continue
+        if strip_targs(c.get("fn") or "") == "std::max":
+            for a in c.get("args", []):
+                aa = a
+                while isinstance(aa, dict) and aa.get("k") in ("icast", "cast") and "v" not in aa:
+                    aa = aa.get("e")
+                if isinstance(aa, dict) and aa.get("v") == lo:
+                    return True
+        elif depth < 2 and (c.get("fn") or "").startswith(("draco::", "(anonymous")) or \
+                (depth < 2 and "::" not in (c.get("fn") or "x::")):
+            tg = F.targets(c)
+            if tg and all(t.returns() and all(_has_max_lo(F, ev.get("e"), lo, depth + 1) or
+                                              _ret_var_clamped(F, t, ev.get("e"), lo, depth + 1)
+                                              for b, ev in t.returns()) for t in tg):
+                return True
     return False
+
+
+def _ret_var_clamped(F, fn, e, lo, depth):
+    while isinstance(e, dict) and e.get("k") in ("icast", "cast", "copy"):
+        e = e.get("e")
+    if isinstance(e, dict) and e.get("k") in ("var", "param") and e.get("n"):
+        return _clamped_in(F, fn, e["n"], lo, depth)
+    return False
+
+
+def _clamped_in(F, fn, var, lo, depth=0):
+    for b, kind, tree, e in fn.roots():
+        if tree is None:
+            continue
+        for n in walk(tree):
+            tgt = rhs = None
+            if n.get("k") == "bin" and n.get("op") == "=":
+                tgt, rhs = n.get("l"), n.get("r")
+            if kind == "decl" and n is tree:
+                tgt, rhs = {"k": "var", "n": e.get("var", {}).get("n")}, tree
+            if not isinstance(tgt, dict) or tgt.get("n") != var:
+                continue
+            if _has_max_lo(F, rhs, lo, depth):
+                return True
+    return False
+
+
+def clamp_verified(F, fn_base, var, lo):
+    """Is `var` assigned from an expression containing std::max(lo, ..) - directly or through a helper
+    whose every return is such an expression?"""
+    return any(_clamped_in(F, fn, var, lo) for fn in F.find(fn_base))
 
 
 def run(ctx, rep):
